@@ -176,6 +176,59 @@ def _c14_nontrivial(docs):
     return any(has_req(d) for d in docs)
 
 
+def _gen_c16(rng, max_stages):
+    """base configs, then stages using !append / !extend / !prev at existing and missing, list and non-list paths"""
+    gb = S.Gen(rng, keys=("a", "b", "c"), atoms=(1, 2, 3, "x"), tags=(), max_depth=rng.choice([2, 3]), max_width=3, p_tag=0.0,
+               p_empty=0.1, p_list=0.45)
+    n = rng.randint(2, max_stages)
+    docs = [gb.doc()]
+    for _ in range(n - 1):
+        allp = [(p, node) for d in docs for p, node in _paths_of_sd(d) if p and all(isinstance(x, str) for x in p)]
+        d = {}
+        used_prev = set()
+        for _ in range(rng.randint(1, 3)):
+            r = rng.random()
+            if allp and r < 0.8:
+                p, node = rng.choice(allp)
+            else:
+                p = tuple(rng.choice(["a", "b", "c", "zz"]) for _ in range(rng.randint(1, 2)))
+            op = rng.choice(["append", "append", "extend", "prev", "plain"])
+            if op in ("append", "extend"):
+                val = S.SD(op, None, [[S.ikey(i), S.leaf(rng.choice([7, 8, 9]))] for i in range(rng.randint(0, 2))], form="tag")
+            elif op == "prev":
+                if allp and rng.random() < 0.85:
+                    q, _ = rng.choice(allp)
+                else:
+                    q = ("zz",)
+                if q in used_prev:
+                    continue
+                used_prev.add(q)
+                val = S.SD("prev", None, ref=[S.key_of_py(x) for x in q], form="tag")
+            else:
+                val = gb.node(1)
+            # place val at path p inside the new document (dict of dicts)
+            cur = d
+            for x in p[:-1]:
+                nxt = cur.get(x)
+                if not isinstance(nxt, dict):
+                    nxt = {}
+                    cur[x] = nxt
+                cur = nxt
+            cur[p[-1]] = val
+        def to_sd(x):
+            if isinstance(x, dict) and "k" not in x:
+                return S.mapping([(k, to_sd(v)) for k, v in x.items()])
+            return x
+        docs.append(to_sd(d) if d else S.mapping([]))
+    return docs, [True] * n
+
+
+def _c16_nontrivial(docs):
+    def has_op(sd):
+        return sd["k"] in ("append", "extend", "prev") or any(has_op(c) for _, c in sd["ch"])
+    return any(has_op(d) for d in docs[1:])
+
+
 def _strip_clear(sd):
     sd = dict(sd)
     sd["ch"] = [[k, _strip_clear(c)] for k, c in sd["ch"] if c["k"] != "clear" and not (c["k"] == "scalar" and c["del"] == "T" and c["v"] == ["n", ""])]
@@ -281,6 +334,20 @@ BUILDER = {
                 "set); Config() is constructed for real, !call targets are recording functions; B: seeded random histories with "
                 "!required sprinkled over deeper trees. non-trivial = some document contains !required; distinct by content",
     },
+    "C16": {
+        "invariants": ["Inv_C16"],
+        "exh": {"quick": [("C16_DocsQ", 1, 2, "C16_RangeQ"), ("C16_Docs3", 1, 1)],
+                "thorough": [("C16_Docs", 1, 2, "C16_Range"), ("C16_Docs3", 1, 3)]},
+        "mutations": [{"mutation": "PrevCopies", "docs": "C16_DocsQ", "range": "C16_RangeQ", "stages": (2, 2), "expect": ["Inv_C16"]},
+                      {"mutation": "AppendPrepends", "docs": "C16_DocsQ", "range": "C16_RangeQ", "stages": (2, 2), "expect": ["Inv_C16"]}],
+        "gen": _gen_c16, "random": {"quick": 1500, "thorough": 30000}, "max_stages": 4,
+        "nontrivial": _c16_nontrivial,
+        "rule": "A: base configs (mappings over a b, depth<=3, scalars, lists of 0-2 elements) x newer documents placing !append [7], "
+                "!append [], !extend [7,8], !prev <5 paths> or a scalar at every path of depth<=2 (top level / nested, existing / missing, "
+                "list / non-list targets, several operators per document); operators in a first document; 3-stage sequences on a "
+                "narrower set; B: seeded random histories aiming the operators at paths of earlier documents (or mistyped ones). "
+                "non-trivial = a later document contains an operator; distinct by content",
+    },
     "C15": {
         "invariants": ["Inv_C15"],
         "rel": "c15",
@@ -309,7 +376,7 @@ _BUILDER_NOTE = ("trusted: TLC 1.8, the YAML renderer and the projection of harn
                  "bounded universes (named in the evidence); direction B samples larger inputs, it does not enumerate them")
 ENGINES = [
     {"name": "builder-family", "path": "/verif/harness/builderfam.py",
-     "serves_properties": sorted(["C02", "C03", "C04", "C05", "C08", "C14", "C15"]),
+     "serves_properties": sorted(["C02", "C03", "C04", "C05", "C08", "C14", "C15", "C16"]),
      "kind_free_text": "TLC over spec/MC_Build.tla (AyBuild state machine: AddSource / FlattenFirst / MergeStage / Finish over "
                        "AyParse + AyMerge) checks the property invariants on every history of a bounded document universe and prints "
                        "each behaviour; every behaviour is replayed through the real Builder; recorded traces of seeded larger "
@@ -378,4 +445,13 @@ META["C14"] = {"engine": "builder-family", "design_ref": "DESIGN.md 5/C14",
             "by later stages do not count; every behaviour is replayed with recording call targets (nothing may run before the check), "
             "recorded histories are judged by TLC on the logged status / paths / call count.",
     "note": _BUILDER_NOTE}
+META["C16"] = {"engine": "builder-family", "design_ref": "DESIGN.md 5/C16",
+    "technique": "TLC model checking of AyBuild (premerge operators) + trace validation / behaviour replay against the library",
+    "text": "The premerge operators are part of the merge specification (document-order walk, detach from the older tree, re-set in the "
+            "newer document, then merge). TLC checks it against a declarative reading: the operators act in document order on what is "
+            "left of the configuration (append = previous list ++ L or PremergeError, extend = the same or plain L, prev = take the "
+            "subtree out of p and put it at q) and the rest is C02's recursive update, so every other path keeps its value and element "
+            "order; exhaustive over the named universes, behaviours replayed, random histories validated by TLC; mutations PrevCopies "
+            "and AppendPrepends must be refuted.",
+    "note": _BUILDER_NOTE + "; documents carry no priority / delete tags (those are C03/C04); operator targets are mapping paths"}
 NOT_APPLICABLE = {}
